@@ -178,6 +178,8 @@ SCENARIOS = {
                      calls=[(1, 0, 'echo'), (1, 0, 'add')]),
     '3c-falsy': dict(n=3, exporters={0: 'org.ex.A', 2: 'org.ex.C'},
                      falsy=True, calls=[(1, 0, 'echo'), (1, 2, 'swap')]),
+    '2c-reexport': dict(n=2, exporters={0: 'org.ex.A'}, reexport=True,
+                        calls=[(1, 0, 'echo'), (1, 0, 'add')]),
     '4c': dict(n=4, exporters={0: 'org.ex.A', 3: 'org.ex.D'},
                calls=[(1, 0, 'echo'), (2, 3, 'echo2'), (1, 3, 'add')]),
 }
@@ -234,6 +236,13 @@ class System:
             self.ifaces[idx] = (iface, other)
             self.cprotos[idx].exportObject(o)
             self.cprotos[idx].requestBusName(name)
+            if sc.get('reexport'):
+                # the application takes the object off the bus and puts the
+                # same instance back (a service that is paused and resumed)
+                self.pump()
+                self.cprotos[idx].unexportObject('/svc')
+                self.pump()
+                self.cprotos[idx].exportObject(o)
         self.pump()
         if sc.get('be_peer'):
             # one more peer on the bus, written with another library on a
@@ -569,6 +578,8 @@ def run(ctx):
                  for g in (255, 256, 65535, 65536)]
         plan += [('2c-falsy', 'explicit', 0), ('2c-falsy', 'introspect', 0),
                  ('3c-falsy', 'introspect', 0)]
+        plan += [('2c-reexport', 'explicit', 0),
+                 ('2c-reexport', 'introspect', 0)]
         limit = 5000
     else:
         plan = [('2c-2calls', 'explicit', 2), ('2c-2calls', 'introspect', 1),
@@ -589,6 +600,8 @@ def run(ctx):
                  for g in (255, 256, 65534, 65535, 65536, 65537)]
         plan += [('2c-falsy', 'explicit', 1), ('2c-falsy', 'introspect', 1),
                  ('3c-falsy', 'introspect', 0), ('3c-falsy', 'explicit', 0)]
+        plan += [('2c-reexport', 'explicit', 1),
+                 ('2c-reexport', 'introspect', 1)]
         limit = 60000
     for scn, mode, dev in plan:
         dfs.explore(ctx, make_runner,
